@@ -279,10 +279,17 @@ func inferEntryHeld(p *Prog, fi *FuncInfo, depth int) []Held {
 			}
 			var tr []Held
 			for _, h := range hs {
+				translated := false
 				for from, to := range mapping {
 					if h.Path == from || strings.HasPrefix(h.Path, from+".") {
 						tr = append(tr, Held{Path: to + strings.TrimPrefix(h.Path, from), Class: h.Class, Mode: h.Mode})
+						translated = true
 					}
+				}
+				// a lock of the caller's own object that the callee cannot name (r.m held while r.storage.first() runs
+				// on the part it guards): kept under the name of its class
+				if !translated && h.Class != "" {
+					tr = append(tr, Held{Path: "^" + h.Class, Class: h.Class, Mode: h.Mode})
 				}
 			}
 			if sites == 0 {
